@@ -113,7 +113,7 @@ class Ctx:
         self.transitions += g
         return ok, g, d, out
 
-    def gen(self, module, cfg, env=None, timeout=1800, workers=1, sink=None, simulate=None):
+    def gen(self, module, cfg, env=None, timeout=1800, workers=1, sink=None, simulate=None, depth=70):
         """Run TLC as case generator; every PrintT(ToJson(x)) line becomes one record.
         Returns the list of records (or streams them to sink)."""
         recs = []
@@ -131,7 +131,7 @@ class Ctx:
                 recs.append(r)
         extra = []
         if simulate:
-            extra = ["-simulate", simulate, "-seed", str(self.seed)]
+            extra = ["-simulate", simulate, "-depth", str(depth), "-seed", str(self.seed)]
         rc, out = self._tlc(module, cfg, extra=extra, env=env, timeout=timeout, workers=workers, stream=on)
         if rc != 0 and not simulate:
             sys.stderr.write(out[-4000:])
